@@ -899,8 +899,10 @@ func (pr *privRun) wireExprs(pc *pcase, fs []pframe) (names, exprs []string, cou
 			continue
 		}
 		exprs = append(exprs, s)
-		if k := strings.Index(s, " = "); k >= 0 {
-			names = append(names, s[:k])
+		if k := strings.Index(s, "="); k >= 0 {
+			// (the name is what precedes the first '='; blanks around it are not part of it — the
+			// property does not fix the spacing of the rendering)
+			names = append(names, strings.TrimSpace(s[:k]))
 		} else {
 			names = append(names, s)
 		}
